@@ -18,6 +18,8 @@
 //	(B) res1 applied no patch:             the requirement list (name, version, origin) the real reader parses from the
 //	                                       written file equals the one of the original file
 //	(C) no id of P.Fixed is marked Unactionable in res1.Vulnerabilities
+//	(D) with the no-introduce option the applied patch reports no Introduced vulnerability (the documented meaning
+//	    of the option; together with (A) this means the re-analysis finds no new vulnerability)
 //
 // Don't-care cells (accepted; counted in the evidence):
 //   - run 1 returns an error (unresolvable manifest, ...): nothing is demanded.
@@ -30,7 +32,7 @@
 //     "only consider these vulnerability IDs & ignore all others".
 //
 // Cause keys: <strategy>:fixed-still-present, :introduced-not-found, :unreported-new-vuln, :vuln-vanished,
-// :no-patch-but-requirements-changed, :fixed-marked-unactionable, :rewritten-manifest-unanalysable, :hang,
+// :no-patch-but-requirements-changed, :fixed-marked-unactionable, :no-introduce-violated, :rewritten-manifest-unanalysable, :hang,
 // :panic:<site>, explicit-list:introduced-vuln-not-filtered, pom:shared-property-collateral-change.
 package main
 
@@ -40,7 +42,9 @@ import (
 	"os"
 	"path/filepath"
 	"reflect"
+	"runtime/debug"
 	"sort"
+	"strconv"
 	"strings"
 	"sync/atomic"
 	"time"
@@ -227,6 +231,9 @@ func runTuple(c *u.Case, dir string) *tupleOut {
 			out.add(st+":fixed-marked-unactionable", "%s is fixed by the applied patch %s but marked unactionable", v.ID, describePatches(res1.Patches))
 		}
 	}
+	if c.Opt.NoIntroduce && len(intro) > 0 {
+		out.add(st+":no-introduce-violated", "NoIntroduce is set but the applied patch %s reports introduced vulnerabilities", describePatches(res1.Patches))
+	}
 	want := map[string]bool{}
 	for _, id := range ids(res1.Vulnerabilities) {
 		if !fixed[id] {
@@ -327,6 +334,7 @@ var scratchRoot = "/dev/shm/verif-c12"
 func main() {
 	r := ev.Start("C12", "exploration", 4*time.Minute, 36*time.Minute)
 	scratchRoot = fmt.Sprintf("%s-%d", scratchRoot, os.Getpid())
+	debug.SetGCPercent(400) // allocation-heavy XML/JSON parsing; memory is not the constraint
 	if f := os.Getenv("VERIF_REPLAY"); f != "" {
 		code := replay(f)
 		os.RemoveAll(scratchRoot)
@@ -354,6 +362,13 @@ func main() {
 	perStrategy := map[string]map[string]int64{}
 	perOption := map[string]*[2]atomic.Int64{}
 	exhaustive := true
+	// development aid only: VERIF_DEBUG_STRIDE=k executes every k-th generated tuple (smoke test of the
+	// thorough bounds); such a run is never reported as exhaustive.
+	stride, genSeq := 0, 0
+	if k, err := strconv.Atoi(os.Getenv("VERIF_DEBUG_STRIDE")); err == nil && k > 1 {
+		stride = k
+		r.Cap("VERIF_DEBUG_STRIDE=%d: only every %d-th tuple executed", k, k)
+	}
 
 	runAll := func(st string, gen func(emit func(*u.Case))) {
 		var tuples, applied atomic.Int64
@@ -409,6 +424,9 @@ func main() {
 			chunk = chunk[:0]
 		}
 		gen(func(c *u.Case) {
+			if genSeq++; stride > 1 && genSeq%stride != 0 {
+				return
+			}
 			chunk = append(chunk, u.OptionVariants(c)...)
 			if len(chunk) >= chunkSize {
 				flush()
@@ -448,7 +466,7 @@ func main() {
 	r.Set("dont_care_cells_hit", dc)
 	r.Assume("the in-memory deps.dev LocalClient and the npm/Maven resolvers of deps.dev/util/resolve are the resolution semantics (the same ones the repository's own tests use)")
 	r.Assume("vulnerability matching uses the repository's IsAffected (decided separately by C18)")
-	rule := "For every tuple (universe, manifest, vulnerability set, upgrade config, option variant) of the bounded product below, npm/relax and Maven/override, MaxUpgrades=1: run 1 = FixVulns on the manifest file; run 2 = fresh FixVulns (fresh clients, same filter options, every upgrade level none) on the file run 1 wrote. (A) if run 1 applied one patch P: ids(run2 vulns) = ids(run1 vulns) - ids(P.Fixed) + ids(P.Introduced); (B) if run 1 applied no patch: the re-read requirement list equals the original; (C) no id in P.Fixed is Unactionable in run 1; no panic, no tuple longer than 120 s. " +
+	rule := "For every tuple (universe, manifest, vulnerability set, upgrade config, option variant) of the bounded product below, npm/relax and Maven/override, MaxUpgrades=1: run 1 = FixVulns on the manifest file; run 2 = fresh FixVulns (fresh clients, same filter options, every upgrade level none) on the file run 1 wrote. (A) if run 1 applied one patch P: ids(run2 vulns) = ids(run1 vulns) - ids(P.Fixed) + ids(P.Introduced); (B) if run 1 applied no patch: the re-read requirement list equals the original; (C) no id in P.Fixed is Unactionable in run 1; (D) with no-introduce P.Introduced is empty; no panic, no tuple longer than 120 s. " +
 		"Bound (" + r.Tier + ", Lite lists): " + b.Describe() + "; upgrade configs {major},{patch},{minor,first package:none}; shapes " + strings.Join(u.FixShapes, ", ") + " of verif/universe/gen.go, each the full product of its lists, times the option variants of universe.OptionVariants (default, ignore=[Vi], explicit=[Vi], dev-deps off with requirement i marked dev, max depth 1, max depth 2, min severity 5.0 with V1 low/V2 high and vice versa, no-introduce), enumerated simplest first."
 	os.RemoveAll(scratchRoot)
 	r.Finish(rule, exhaustive)
